@@ -111,6 +111,10 @@ func (g *Generator) testNode(typeName string, node ast.Node) bool {
 			continue
 		}
 		obj := named.Obj()
+		if obj.Pkg() == nil {
+			//universe type (error)
+			continue
+		}
 		pkgPath := obj.Pkg().Path()
 		if pkgPath == shoot.SelfPkgPath && obj.Name() == "RestClient" {
 			return true
